@@ -288,6 +288,6 @@ _RULE = ("batches of 8-12 catalogue scenarios (families assigned round-robin ove
          "family declared (catalogue TRAITS) to iterate string-keyed dicts/sets, consume a module-level RNG, or route by hash")
 
 OBLIGATIONS = [
-    Obligation("matrix", strategy, execute, {"quick": 64, "thorough": 2560}, _RULE,
-               case_timeout={"quick": 150.0, "thorough": 150.0}),
+    Obligation("matrix", strategy, execute, {"quick": 48, "thorough": 2560}, _RULE,
+               case_timeout={"quick": 150.0, "thorough": 150.0}, min_cases_per_shard=16),   # each case already runs 4-5 interpreters side by side
 ]
